@@ -7,30 +7,44 @@
  *   r init v n x1 y1 x2 y2 ...     region v := rectangles
  *   r union|intersect|subtract d a b
  *   r translate v dx dy
- *   I id w h seed                  (re)create image id with pixels from seed
+ *   I id w h seed fmt              (re)create image id with pixels from seed (fmt 0 a8r8g8b8, 1 x8r8g8b8, 2 a8)
+ *   F id a r g b                   (re)create image id as a solid fill (16-bit channels)
  *   K id v                         set clip of image id to region v          (v = 0: remove the clip)
  *   S id on                        pixman_image_set_source_clipping + has_client_clip as the library requires
- *   C op s d sx sy dx dy w h
+ *   P id rep                       pixman_image_set_repeat
+ *   T id tx ty                     pixman_image_set_transform (integer translation)
+ *   A id on                        pixman_image_set_component_alpha
+ *   G id / U id                    pixman_image_ref / pixman_image_unref (the return value is logged)
+ *   C op s m d sx sy mx my dx dy w h        (m = 0: no mask)
+ *   B op d a r g b n x1 y1 x2 y2 ...        pixman_image_fill_boxes
  */
 #include "vcommon.h"
 #include <pixman.h>
 
-#define NIMG 4
+#define NIMG 8
 static pixman_region32_t regs[4];
 static pixman_image_t *imgs[NIMG];
 static uint32_t *bits[NIMG];
-static int iw[NIMG], ih[NIMG];
+static int iw[NIMG], ih[NIMG], ifmt[NIMG], istride[NIMG];
+static const char *fmt_names[] = { "a8r8g8b8", "x8r8g8b8", "a8" };
 
 static void
 log_pixels (const char *k, int id)
 {
-    int i, n = iw[id] * ih[id];
+    int x, y, first = 1;
     fprintf (vt_out, ",\"%s\":[", k);
-    for (i = 0; i < n; i++)
-    {
-	uint32_t p = bits[id][i];
-	fprintf (vt_out, "%s[%u,%u,%u,%u]", i ? "," : "", p >> 24, (p >> 16) & 0xff, (p >> 8) & 0xff, p & 0xff);
-    }
+    for (y = 0; y < ih[id]; y++)
+	for (x = 0; x < iw[id]; x++)
+	{
+	    if (ifmt[id] == 2)
+		fprintf (vt_out, "%s[%u,0,0,0]", first ? "" : ",", ((uint8_t *)bits[id])[y * istride[id] + x]);
+	    else
+	    {
+		uint32_t p = bits[id][y * (istride[id] / 4) + x];
+		fprintf (vt_out, "%s[%u,%u,%u,%u]", first ? "" : ",", p >> 24, (p >> 16) & 0xff, (p >> 8) & 0xff, p & 0xff);
+	    }
+	    first = 0;
+	}
     fputc (']', vt_out);
 }
 
@@ -108,15 +122,18 @@ main (int argc, char **argv)
 	}
 	else if (kind[0] == 'I')
 	{
-	    int id, w, h;
+	    int id, w, h, fmt, nw;
 	    long long seed;
 	    vrng_t rng;
-	    if (fscanf (in, "%d %d %d %lld", &id, &w, &h, &seed) != 4) return 3;
+	    if (fscanf (in, "%d %d %d %lld %d", &id, &w, &h, &seed, &fmt) != 5) return 3;
 	    if (imgs[id]) pixman_image_unref (imgs[id]);
 	    free (bits[id]);
-	    bits[id] = malloc (4 * w * h);
+	    ifmt[id] = fmt;
+	    istride[id] = fmt == 2 ? ((w + 3) & ~3) : 4 * w;
+	    nw = istride[id] / 4 * h;
+	    bits[id] = malloc (4 * nw);
 	    vrng_seed (&rng, (uint64_t)seed);
-	    for (i = 0; i < w * h; i++)
+	    for (i = 0; i < nw; i++)
 	    {
 		uint32_t v = (uint32_t)vrng_next (&rng);
 		switch (vrng_below (&rng, 8))
@@ -130,8 +147,79 @@ main (int argc, char **argv)
 		bits[id][i] = v;
 	    }
 	    iw[id] = w; ih[id] = h;
-	    imgs[id] = pixman_image_create_bits (PIXMAN_a8r8g8b8, w, h, bits[id], w * 4);
-	    vt_begin ("Img"); vt_int ("id", id); vt_int ("w", w); vt_int ("h", h); log_pixels ("px", id); vt_end ();
+	    imgs[id] = pixman_image_create_bits (fmt == 0 ? PIXMAN_a8r8g8b8 : fmt == 1 ? PIXMAN_x8r8g8b8 : PIXMAN_a8,
+						 w, h, bits[id], istride[id]);
+	    vt_begin ("Img"); vt_int ("id", id); vt_int ("w", w); vt_int ("h", h); vt_str ("fmt", fmt_names[fmt]);
+	    log_pixels ("px", id); vt_end ();
+	}
+	else if (kind[0] == 'F')
+	{
+	    int id, a, r, g, b;
+	    pixman_color_t c;
+	    if (fscanf (in, "%d %d %d %d %d", &id, &a, &r, &g, &b) != 5) return 3;
+	    if (imgs[id]) pixman_image_unref (imgs[id]);
+	    free (bits[id]); bits[id] = NULL;
+	    c.alpha = a; c.red = r; c.green = g; c.blue = b;
+	    imgs[id] = pixman_image_create_solid_fill (&c);
+	    vt_begin ("Solid"); vt_int ("id", id);
+	    fprintf (vt_out, ",\"col\":[%d,%d,%d,%d]", a, r, g, b);
+	    vt_end ();
+	}
+	else if (kind[0] == 'P')
+	{
+	    int id, rep;
+	    if (fscanf (in, "%d %d", &id, &rep) != 2) return 3;
+	    pixman_image_set_repeat (imgs[id], (pixman_repeat_t)rep);
+	    vt_begin ("SetRepeat"); vt_int ("id", id); vt_int ("rep", rep); vt_end ();
+	}
+	else if (kind[0] == 'T')
+	{
+	    int id, tx, ty;
+	    pixman_transform_t t;
+	    if (fscanf (in, "%d %d %d", &id, &tx, &ty) != 3) return 3;
+	    pixman_transform_init_translate (&t, pixman_int_to_fixed (tx), pixman_int_to_fixed (ty));
+	    pixman_image_set_transform (imgs[id], &t);
+	    vt_begin ("SetTranslation"); vt_int ("id", id); vt_int ("tx", tx); vt_int ("ty", ty); vt_end ();
+	}
+	else if (kind[0] == 'A')
+	{
+	    int id, on;
+	    if (fscanf (in, "%d %d", &id, &on) != 2) return 3;
+	    pixman_image_set_component_alpha (imgs[id], on);
+	    vt_begin ("SetCA"); vt_int ("id", id); vt_bool ("on", on); vt_end ();
+	}
+	else if (kind[0] == 'G')
+	{
+	    int id;
+	    if (fscanf (in, "%d", &id) != 1) return 3;
+	    pixman_image_ref (imgs[id]);
+	    vt_begin ("Ref"); vt_int ("id", id); vt_end ();
+	}
+	else if (kind[0] == 'U')
+	{
+	    int id, gone;
+	    if (fscanf (in, "%d", &id) != 1) return 3;
+	    gone = pixman_image_unref (imgs[id]);
+	    if (gone) imgs[id] = NULL;       /* the pixels stay allocated until the next execution */
+	    vt_begin ("Unref"); vt_int ("id", id); vt_bool ("gone", gone); vt_end ();
+	}
+	else if (kind[0] == 'B')
+	{
+	    int o, d, a, r, g, b, n, j;
+	    pixman_color_t c;
+	    pixman_box32_t bx[16];
+	    if (fscanf (in, "%d %d %d %d %d %d %d", &o, &d, &a, &r, &g, &b, &n) != 7 || n > 16) return 3;
+	    for (j = 0; j < n; j++)
+		if (fscanf (in, "%d %d %d %d", &bx[j].x1, &bx[j].y1, &bx[j].x2, &bx[j].y2) != 4) return 3;
+	    c.alpha = a; c.red = r; c.green = g; c.blue = b;
+	    pixman_image_fill_boxes ((pixman_op_t)o, imgs[d], &c, n, bx);
+	    vt_begin ("Fill"); vt_int ("op", o); vt_int ("d", d);
+	    fprintf (vt_out, ",\"col\":[%d,%d,%d,%d],\"boxes\":[", a, r, g, b);
+	    for (j = 0; j < n; j++)
+		fprintf (vt_out, "%s[%d,%d,%d,%d]", j ? "," : "", bx[j].x1, bx[j].y1, bx[j].x2, bx[j].y2);
+	    fputc (']', vt_out);
+	    log_pixels ("after", d);
+	    vt_end ();
 	}
 	else if (kind[0] == 'K')
 	{
@@ -150,11 +238,13 @@ main (int argc, char **argv)
 	}
 	else if (kind[0] == 'C')
 	{
-	    int o, s, d, sx, sy, dx, dy, w, h;
-	    if (fscanf (in, "%d %d %d %d %d %d %d %d %d", &o, &s, &d, &sx, &sy, &dx, &dy, &w, &h) != 9) return 3;
-	    pixman_image_composite32 ((pixman_op_t)o, imgs[s], NULL, imgs[d], sx, sy, 0, 0, dx, dy, w, h);
+	    int o, s, m, d, sx, sy, mx, my, dx, dy, w, h;
+	    if (fscanf (in, "%d %d %d %d %d %d %d %d %d %d %d %d", &o, &s, &m, &d, &sx, &sy, &mx, &my, &dx, &dy, &w, &h) != 12)
+		return 3;
+	    pixman_image_composite32 ((pixman_op_t)o, imgs[s], m ? imgs[m] : NULL, imgs[d], sx, sy, mx, my, dx, dy, w, h);
 	    vt_begin ("Comp");
-	    vt_int ("op", o); vt_int ("s", s); vt_int ("d", d); vt_int ("sx", sx); vt_int ("sy", sy);
+	    vt_int ("op", o); vt_int ("s", s); vt_int ("m", m); vt_int ("d", d); vt_int ("sx", sx); vt_int ("sy", sy);
+	    vt_int ("mx", mx); vt_int ("my", my);
 	    vt_int ("dx", dx); vt_int ("dy", dy); vt_int ("w", w); vt_int ("h", h);
 	    log_pixels ("after", d);
 	    vt_end ();
